@@ -45,6 +45,7 @@ type lemmaParts struct {
 	insts    []*SExp        // explicit instantiations of named quantified hypotheses
 	hidden   map[int]bool   // hypotheses not shown to the solver in this lemma's own proof
 	lets     [][2]*SExp
+	enumerated bool // conclusion justified by exhaustive enumeration of a finite range (every instance is a goal)
 }
 
 func (p *Prog) parseLemma(l *LemmaDecl) (*lemmaParts, error) {
@@ -84,6 +85,24 @@ func (p *Prog) parseLemma(l *LemmaDecl) (*lemmaParts, error) {
 			lp.goals = append(lp.goals, &Clause{Label: args[0].Atom, X: args[1]})
 		case "conclude":
 			lp.conclude = args[0]
+		case "enumerate":
+			// (enumerate i lo hi phi): phi[i:=c] is a goal for every constant lo <= c <= hi; the lemma then
+			// states  lo <= i <= hi  =>  phi  for the (declared) variable i -- sound by exhaustion of the range
+			v := args[0].Atom
+			lo, _ := strconv.Atoi(args[1].Atom)
+			hi, _ := strconv.Atoi(args[2].Atom)
+			if hi < lo || hi-lo > 4096 {
+				return nil, fmt.Errorf("lemma %s: enumerate range", lp.name)
+			}
+			for c := lo; c <= hi; c++ {
+				sub := map[string]*SExp{v: {Atom: strconv.Itoa(c)}}
+				lp.goals = append(lp.goals, &Clause{Label: fmt.Sprintf("enum%d", c), X: substSExp(args[3], sub)})
+			}
+			rng := &SExp{IsL: true, List: []*SExp{{Atom: "and"},
+				{IsL: true, List: []*SExp{{Atom: "bvuge"}, {Atom: v}, {Atom: strconv.Itoa(lo)}}},
+				{IsL: true, List: []*SExp{{Atom: "bvule"}, {Atom: v}, {Atom: strconv.Itoa(hi)}}}}}
+			lp.conclude = &SExp{IsL: true, List: []*SExp{{Atom: "=>"}, rng, args[3]}}
+			lp.enumerated = true
 		case "use-lemma":
 			lp.useLemmas = append(lp.useLemmas, c)
 		case "induct":
@@ -203,7 +222,7 @@ func (p *Prog) elabLemma(l *LemmaDecl) (obs []*Obligation, err error) {
 		for _, g := range lp.goals {
 			mk(g.Label, assume, p.elabT(nil, g.X, env), false)
 		}
-		if concl != nil {
+		if concl != nil && !lp.enumerated {
 			mk("conclude", assume, concl, false)
 		}
 		mk("canary", assume, False(), true)
